@@ -99,11 +99,74 @@ struct LThread
   unsigned spurious_run = 0;
   uint64_t own_steps    = 0;
   std::condition_variable cv;
-  std::thread os;
   bool started = false;
 };
 
 inline thread_local LThread *tl_self = nullptr;
+
+// OS threads are pooled across scenarios: creating a thread under ASan (shadow reservation,
+// alternate signal stack) costs far more than a whole small scenario.
+struct PoolWorker
+{
+  std::mutex m;
+  std::condition_variable cv;
+  std::function<void()> job;
+  bool has_job = false;
+  bool busy    = false;  // guarded by pool_mutex()
+};
+inline std::mutex &pool_mutex()
+{
+  static std::mutex *m = new std::mutex();
+  return *m;
+}
+inline std::vector<PoolWorker *> &pool()
+{
+  static std::vector<PoolWorker *> *p = new std::vector<PoolWorker *>();
+  return *p;
+}
+inline std::mutex &handoff_mutex()
+{
+  static std::mutex *m = new std::mutex();
+  return *m;
+}
+inline void pool_submit(std::function<void()> job)
+{
+  std::lock_guard<std::mutex> g(pool_mutex());
+  for (PoolWorker *w : pool())
+    if (!w->busy)
+    {
+      w->busy = true;
+      {
+        std::lock_guard<std::mutex> g2(w->m);
+        w->job     = std::move(job);
+        w->has_job = true;
+      }
+      w->cv.notify_one();
+      return;
+    }
+  PoolWorker *w = new PoolWorker();
+  w->busy       = true;
+  w->job        = std::move(job);
+  w->has_job    = true;
+  pool().push_back(w);
+  std::thread([w]() {
+    for (;;)
+    {
+      std::function<void()> j;
+      {
+        std::unique_lock<std::mutex> lk(w->m);
+        w->cv.wait(lk, [&] { return w->has_job; });
+        j          = std::move(w->job);
+        w->job     = nullptr;
+        w->has_job = false;
+      }
+      j();
+      j = nullptr;
+      std::lock_guard<std::mutex> g(pool_mutex());
+      w->busy = false;
+    }
+  }).detach();
+}
 
 class Scheduler
 {
@@ -143,14 +206,12 @@ public:
         all_done = false;
     active() = nullptr;
     tl_self  = nullptr;
-    for (auto &t : threads_)
-      if (t->os.joinable())
-      {
-        if (all_done)
-          t->os.join();
-        else
-          t->os.detach();
-      }
+    if (all_done)
+    {
+      // every pooled OS thread has handed the baton on for the last time; wait until each has
+      // left finish() (they touch only the global hand-off mutex after that)
+      std::lock_guard<std::mutex> lk(handoff_mutex());
+    }
     return all_done;
   }
 
@@ -210,15 +271,16 @@ public:
     t->st   = LThread::RUN;
     LThread *raw = t.get();
     threads_.push_back(std::move(t));
-    raw->os = std::thread([this, raw, body = std::move(body)]() {
+    pool_submit([this, raw, body = std::move(body)]() {
       tl_self = raw;
       {
-        std::unique_lock<std::mutex> lk(m_);
+        std::unique_lock<std::mutex> lk(handoff_mutex());
         raw->started = true;
         raw->cv.wait(lk, [&] { return current_ == raw->id; });
       }
       body();
       finish(raw);
+      tl_self = nullptr;
     });
     return raw;
   }
@@ -378,7 +440,7 @@ private:
     last_run_ = next;
     if (next == me->id)
       return;
-    std::unique_lock<std::mutex> lk(m_);
+    std::unique_lock<std::mutex> lk(handoff_mutex());
     current_ = next;
     threads_[static_cast<size_t>(next)]->cv.notify_one();
     me->cv.wait(lk, [&] { return current_ == me->id; });
@@ -391,17 +453,17 @@ private:
     bump();
     int next  = choose(-1, false);
     last_run_ = next;
-    std::unique_lock<std::mutex> lk(m_);
+    std::unique_lock<std::mutex> lk(handoff_mutex());
     current_ = next;
     threads_[static_cast<size_t>(next)]->cv.notify_one();
-    // this OS thread ends; nobody waits for the baton on its behalf any more
+    // the pooled OS thread returns to the pool; nobody waits for the baton on its behalf any more
   }
 
   ChoiceSource *src_;
   Options opt_;
   FatalHandler fatal_;
-  std::mutex m_;  // protects current_ for the hand-off only; all other state is touched by the
-                  // running logical thread only (the hand-off gives happens-before)
+  // handoff_mutex() protects current_ for the hand-off only; all other state is touched by the
+  // running logical thread only (the hand-off gives happens-before)
   std::vector<std::unique_ptr<LThread>> threads_;
   std::vector<int> runnable_;
   std::vector<int> alt_ids_;
